@@ -33,6 +33,9 @@ type TierCfg struct {
 	Skip        bool           `json:"skip"`
 	SolverMs    int            `json:"solver_ms"`
 	MaxBackEdge int            `json:"max_backedge"`
+	// ReplayTimeoutS: timeout of one native counterexample replay (default 120 s); for harnesses whose native
+	// confirmation is a stress run
+	ReplayTimeoutS int `json:"replay_timeout_s"`
 }
 
 type EntrySpec struct {
@@ -600,7 +603,17 @@ func (r *replayer) confirm(res *entryResult, tc TierCfg) {
 			continue
 		}
 		timeout := 120 * time.Second
-		rs, out := r.run([]rtCase{c}, timeout)
+		if tc.ReplayTimeoutS > 0 {
+			timeout = time.Duration(tc.ReplayTimeoutS) * time.Second
+		}
+		// the native harness can tell a counterexample replay (CONFIRM=1) from a witness validation run, e.g. to
+		// spend a long stress budget only on the former
+		cc := c
+		cc.Params = map[string]int{"CONFIRM": 1}
+		for k, v := range c.Params {
+			cc.Params[k] = v
+		}
+		rs, out := r.run([]rtCase{cc}, timeout)
 		var rr *rtResult
 		if len(rs) == 1 {
 			rr = rs[0]
